@@ -44,7 +44,7 @@ func (e *engine) Info() core.Info {
 	return core.Info{
 		Prop:  "C07",
 		Level: "fault_enumeration",
-		Rule:  "a case is one stored item (a tape-generated geometry of one of the seven WKB types incl. nested collections, serialised by an independent writer with uniform or per-element mixed byte orders; its hex form; its GeoJSON document; a geojson.Geometry value with an arbitrarily shaped Coordinates tree; an adversarial frame: collection nesting up to the 64 KiB bound, multi-geometries with wrongly typed children; or a random byte string) read back under the ENUMERATED fault set for that item: truncation at every offset, every single-bit flip of every header/count/byte-order/type byte (all bits of items <=256 bytes, sampled beyond), every count field overwritten with each of 11 values up to 2^32-1, every byte-order byte with all 256 values, every type code with 40 codes, block duplication/splice, and for wkb.Read an I/O error and an early EOF at every offset under 3 chunking schedules; evaluations = faulted decodes; non-trivial = the fault changed at least one stored byte or the reader's behaviour; distinct = distinct hash of (entry point, faulted bytes, reader schedule)",
+		Rule:  "a case is one stored item (a tape-generated geometry of one of the seven WKB types incl. nested collections, serialised by an independent writer with uniform or per-element mixed byte orders; its hex form; its GeoJSON document; a geojson.Geometry value with an arbitrarily shaped Coordinates tree; an adversarial frame: collection nesting up to the 64 KiB bound, multi-geometries with wrongly typed children; or a random byte string) read back under the ENUMERATED fault set for that item: truncation at every offset, every single-bit flip of every header/count/byte-order/type byte (all bits of items <=256 bytes, sampled beyond), every count field overwritten with each of 11 values up to 2^32-1, every byte-order byte with all 256 values, every type code with 40 codes, block duplication/splice, and for wkb.Read an I/O error and an early EOF at every offset under several chunking schedules plus truncated media whose reader returns the last bytes together with io.EOF; hex: every string of length <=1, prefix-like 2-character strings, substitutions; GeoJSON: truncation at every offset, byte substitutions, arbitrarily shaped coordinates, and documents near the size bound with skewed shapes (one long member and thousands of empty ones, many members with one malformed); evaluations = faulted decodes; non-trivial = the fault changed at least one stored byte or the reader's behaviour; distinct = distinct hash of (entry point, faulted bytes, reader schedule)",
 		Real:  []string{"wkb.Read / wkb.Decode and all per-type readers", "hex.Decode", "geojson.Decode / FromGeoJSON", "the matching encoders wkb.Encode / hex.Encode / geojson.Encode for the round-trip clause", "encoding/binary, encoding/json underneath"},
 		Stubs: []string{"the storage medium and the io.Reader handed to wkb.Read (simulated: chunking, (0,nil) reads, injected error, early EOF)", "an independent WKB serializer that writes the stored items and records field offsets"},
 		FaultKinds: []string{
@@ -639,6 +639,10 @@ func (r *run) wkbBytes(kind string, in []byte, orig []byte) {
 	p, v, st := core.Protect(func() { g, err = wkb.Decode(in) })
 	used := allocated() - before
 	r.log.EventInts("wkb."+kind, int64(len(in)), b2i(err == nil))
+	if r.log.Keep && r.notes < 40 {
+		r.notes++
+		r.log.Note("      ^ wkb.Decode(%s) under fault %q -> ok=%v, %d bytes allocated", hexdump(in), kind, err == nil, used)
+	}
 	if p {
 		r.fail("panic", "wkb.Decode,"+kind, "wkb.Decode panicked on %d bytes (%s; fault %s): %v %s", len(in), hexdump(in), kind, v, core.TrimStack(st, 4))
 		return
